@@ -100,6 +100,18 @@ XLevelPart(d) ==
         /\ Emit(c("ci"))
         /\ Emit(c("stats_new"))
 
+\* the edge of the documented domain for EVERY population up to PROP_EDGE (2, resp. 10, successes or failures exactly, and one
+\* less), one confidence per population: the domain is a statement about the integer counts, whatever n
+EdgeMax == EnvInt("PROP_EDGE", 2000)
+EdgePart(d) ==
+  \A n \in 41..EdgeMax :
+     LET ki == 1 + (n % 3)  li == IF n % 2 = 0 THEN 12 ELSE 9
+         c(fe, k) == Case(fe, n, k, ki, li, TRUE, TRUE) @@ [method |-> IF fe = "ci_z_normal" THEN "wald" ELSE "wilson"] IN
+     /\ \A k \in {1, 2, n - 2, n - 1} : Emit(c("ci_wilson", k))
+     /\ \A k \in {9, 10, n - 10, n - 9} : Emit(c("ci_z_normal", k))
+     /\ Emit(c("ci_wilson", 2)) /\ Emit(c("ci", 2)) /\ Emit(c("stats_new", 2))
+     /\ Emit(c("ci_wilson", n - 2)) /\ Emit(c("ci", n - 2)) /\ Emit(c("stats_new", n - 2))
+
 \* every k of a few populations through the count-based and ratio-based entry points (the coverage of C12 is that of ci_wilson
 \* only if they all return its interval)
 FrontsPart(d) ==
@@ -132,6 +144,6 @@ LevelsPart(d) ==
 
 Next == /\ ~done
         /\ done' = TRUE
-        /\ CASE Grp = "row" -> (RowPart(done) /\ BigPopPart(done) /\ RatioTiePart(done) /\ XLevelPart(done)) [] Grp = "big" -> (BigPopPart(done) /\ XLevelPart(done)) [] Grp = "fronts" -> FrontsPart(done) [] Grp = "mult" -> MultPart(done) [] Grp = "levels" -> LevelsPart(done)
+        /\ CASE Grp = "row" -> (RowPart(done) /\ BigPopPart(done) /\ RatioTiePart(done) /\ XLevelPart(done)) [] Grp = "big" -> (BigPopPart(done) /\ XLevelPart(done)) [] Grp = "fronts" -> FrontsPart(done) [] Grp = "edge" -> EdgePart(done) [] Grp = "mult" -> MultPart(done) [] Grp = "levels" -> LevelsPart(done)
 Spec == Init /\ [][Next]_done
 =============================================================================
